@@ -5,7 +5,7 @@ generated functions: lead_time, max_useful_life (nat), fifo (bool), the four cos
 self.cost_components."""
 import ast
 
-from .pyexpr import TranslateError, fail, find_class, load_module, strip_docstring
+from .pyexpr import TranslateError, fail, find_class, load_module
 
 HEADER = """(* GENERATED from src/mdpax/problems/perishable_inventory/de_moor_single_product.py -- do not edit *)
 From Coq Require Import ZArith QArith List Bool.
@@ -16,176 +16,7 @@ Open Scope Z_scope.
 Section Gen.
   Variables (lead_time max_useful_life : nat) (fifo : bool).
 """
-NATS = {"self.lead_time": "lead_time", "self.max_useful_life": "max_useful_life"}
-
-
-def nat_expr(e):
-    """index arithmetic over the two structural parameters"""
-    if isinstance(e, ast.Constant) and isinstance(e.value, int) and e.value >= 0:
-        return f"{e.value}%nat"
-    s = ast.unparse(e)
-    if s in NATS:
-        return NATS[s]
-    if isinstance(e, ast.BinOp) and isinstance(e.op, (ast.Add, ast.Sub)):
-        return f"({nat_expr(e.left)} {'+' if isinstance(e.op, ast.Add) else '-'} {nat_expr(e.right)})%nat"
-    fail(e, "index expression not accepted")
-
-
-def lookups(cls):
-    out = {}
-    for kind in ("state", "action", "random_event"):
-        fn = next((n for n in cls.body if isinstance(n, ast.FunctionDef) and n.name == f"_construct_{kind}_component_lookup"), None)
-        if fn is None:
-            raise TranslateError(f"_construct_{kind}_component_lookup not found")
-        body = strip_docstring(fn.body)
-        if len(body) != 1 or not isinstance(body[0], ast.Return) or not isinstance(body[0].value, ast.Dict):
-            fail(fn, "lookup constructor must return a dict literal")
-        d = {}
-        for k, v in zip(body[0].value.keys, body[0].value.values):
-            if isinstance(v, ast.Constant) and isinstance(v.value, int):
-                d[k.value] = ("idx", f"{v.value}%nat")
-            elif isinstance(v, ast.Call) and ast.unparse(v.func) == "slice" and len(v.args) == 2:
-                d[k.value] = ("slice", nat_expr(v.args[0]), nat_expr(v.args[1]))
-            else:
-                fail(v, "lookup entries must be integers or slice(a, b)")
-        out[kind] = d
-    return out
-
-
-class Fn:
-    def __init__(self, node, look, params, rtype):
-        self.node, self.look, self.env, self.rtype = node, look, dict(params), rtype
-        self.params = params
-
-    def sub(self, e):
-        v, tv = self.expr(e.value)
-        if tv != "VZ":
-            fail(e, "only integer vectors are indexed")
-        sl = e.slice
-        if isinstance(sl, ast.Subscript) and isinstance(sl.value, ast.Attribute) and sl.value.attr.endswith("_component_lookup"):
-            kind = sl.value.attr[: -len("_component_lookup")]
-            key = sl.slice.value
-            ent = self.look[kind][key]
-            if ent[0] == "idx":
-                return f"znth ({v}) {ent[1]}", "Z"
-            return f"zslice ({v}) {ent[1]} {ent[2]}", "VZ"
-        if isinstance(sl, ast.UnaryOp) and isinstance(sl.op, ast.USub) and ast.unparse(sl.operand) == "1":
-            return f"zlastv ({v})", "Z"
-        if isinstance(sl, ast.Slice) and sl.step is None and sl.lower is not None and sl.upper is not None:
-            return f"zslice ({v}) {nat_expr(sl.lower)} {nat_expr(sl.upper)}", "VZ"
-        fail(e, "subscript not accepted")
-
-    def expr(self, e):
-        if isinstance(e, ast.Name):
-            if e.id not in self.env:
-                fail(e, f"unknown name {e.id}")
-            return e.id, self.env[e.id]
-        if isinstance(e, ast.Constant) and isinstance(e.value, int):
-            return str(e.value), "Z"
-        if isinstance(e, ast.Subscript):
-            return self.sub(e)
-        if isinstance(e, ast.BinOp) and isinstance(e.op, (ast.Add, ast.Sub)):
-            l, tl = self.expr(e.left)
-            r, tr = self.expr(e.right)
-            if (tl, tr) != ("Z", "Z"):
-                fail(e, "integer arithmetic only")
-            return f"({l} {'+' if isinstance(e.op, ast.Add) else '-'} {r})", "Z"
-        if isinstance(e, ast.BinOp) and isinstance(e.op, ast.Mult) and ast.unparse(e.left) == "-1":
-            r, tr = self.expr(e.right)
-            if tr != "Q":
-                fail(e, "-1 * <cost> only")
-            return f"(- (1) * {r})%Q", "Q"
-        if isinstance(e, ast.Call):
-            f = e.func
-            fs = ast.unparse(f)
-            if isinstance(f, ast.Attribute) and f.attr == "astype" and len(e.args) == 1:
-                return self.expr(f.value)
-            if isinstance(f, ast.Attribute) and f.attr == "clip" and len(e.args) == 1 and ast.unparse(e.args[0]) == "0" and not e.keywords:
-                a, ta = self.expr(f.value)
-                if ta != "Z":
-                    fail(e, "clip(0) of an integer only")
-                return f"Z.max ({a}) 0", "Z"
-            if fs == "jnp.hstack" and len(e.args) == 1 and isinstance(e.args[0], ast.List):
-                parts = []
-                for x in e.args[0].elts:
-                    t, ty = self.expr(x)
-                    parts.append(f"[{t}]" if ty == "Z" else f"({t})")
-                return "(" + " ++ ".join(parts) + ")", "VZ"
-            if fs == "jnp.sum" and len(e.args) == 1:
-                a, ta = self.expr(e.args[0])
-                if ta != "VZ":
-                    fail(e, "sum of a vector only")
-                return f"zsum ({a})", "Z"
-            if fs == "jnp.max" and len(e.args) == 1 and isinstance(e.args[0], ast.Call) and ast.unparse(e.args[0].func) == "jnp.array" \
-                    and isinstance(e.args[0].args[0], ast.List) and len(e.args[0].args[0].elts) == 2:
-                a, ta = self.expr(e.args[0].args[0].elts[0])
-                b, tb = self.expr(e.args[0].args[0].elts[1])
-                if (ta, tb) != ("Z", "Z"):
-                    fail(e, "max of two integers only")
-                return f"Z.max ({a}) ({b})", "Z"
-            if fs == "jnp.dot" and len(e.args) == 2 and ast.unparse(e.args[1]) == "self.cost_components":
-                a, ta = self.expr(e.args[0])
-                if ta != "VZ":
-                    fail(e, "dot(<integer vector>, self.cost_components) only")
-                return f"dotzq ({a}) cost_components", "Q"
-            if fs == "self._issue_stock" and len(e.args) == 2:
-                a, ta = self.expr(e.args[0])
-                b, tb = self.expr(e.args[1])
-                if (ta, tb) != ("VZ", "Z"):
-                    fail(e, "_issue_stock(stock vector, demand)")
-                return f"(if fifo then gen_issue_fifo ({a}) ({b}) else gen_issue_lifo ({a}) ({b}))", "VZ"
-            if fs == "self._calculate_single_step_reward" and len(e.args) == 3:
-                c, tc = self.expr(e.args[2])
-                if tc != "VZ":
-                    fail(e, "reward of a component vector")
-                return f"gen_calculate_single_step_reward ({c})", "Q"
-            if fs == "jax.lax.scan" and ast.unparse(e.args[0]) == "self._issue_one_step" and len(e.args) == 3:
-                rev = "false"
-                for kw in e.keywords:
-                    if kw.arg == "reverse" and isinstance(kw.value, ast.Constant) and isinstance(kw.value.value, bool):
-                        rev = "true" if kw.value.value else "false"
-                    else:
-                        fail(kw, "scan keyword not accepted")
-                c, tc = self.expr(e.args[1])
-                xs, tx = self.expr(e.args[2])
-                if (tc, tx) != ("Z", "VZ"):
-                    fail(e, "scan(step, demand, stock)")
-                return f"zscan gen_issue_one_step ({c}) ({xs}) {rev}", ("Z", "VZ")
-            fail(e, f"call to {fs} not accepted")
-        if isinstance(e, ast.Tuple):
-            ps = [self.expr(x) for x in e.elts]
-            return "(" + ", ".join(p for p, _ in ps) + ")", tuple(t for _, t in ps)
-        fail(e, "expression not accepted")
-
-    def translate(self, name):
-        lets = []
-        body = strip_docstring(self.node.body)
-        for s in body[:-1]:
-            if not (isinstance(s, ast.Assign) and len(s.targets) == 1):
-                fail(s, "only assignments may precede the return")
-            t = s.targets[0]
-            txt, ty = self.expr(s.value)
-            if isinstance(t, ast.Name):
-                self.env[t.id] = ty
-                lets.append(f"let {t.id} := {txt} in")
-            elif isinstance(t, ast.Tuple) and isinstance(ty, tuple) and len(t.elts) == len(ty):
-                ns = [x.id for x in t.elts]
-                lets.append("let '(" + ", ".join(ns) + f") := {txt} in")
-                for n, tt in zip(ns, ty):
-                    if n != "_":
-                        self.env[n] = tt
-            else:
-                fail(s, "assignment not accepted")
-        r = body[-1]
-        if not isinstance(r, ast.Return):
-            fail(r, "last statement must be a return")
-        txt, ty = self.expr(r.value)
-        if ty != self.rtype:
-            fail(r, f"{name} returns {ty}, expected {self.rtype}")
-        ct = {"Z": "Z", "VZ": "list Z", "Q": "Q"}
-        rt = ct[ty] if not isinstance(ty, tuple) else "(" + " * ".join(ct[x] for x in ty) + ")%type"
-        ps = " ".join(f"({n} : {ct[t]})" for n, t in self.params)
-        return "\n".join([f"  Definition gen{name} {ps} : {rt} :="] + ["    " + x for x in lets] + ["    " + txt + "."])
+from .invexpr import Fn, lookups  # noqa: E402
 
 
 def translate(repo):
